@@ -32,7 +32,7 @@ import pair as P
 
 PROP = 'C16'
 SSH_KEYGEN = shutil.which('ssh-keygen')
-SCRATCH = '/dev/shm/asyncssh-verif-c16'
+SCRATCH = '/dev/shm/asyncssh-verif-c16-%d' % os.getpid()       # unique per check run (workers are forked later)
 NOW = 1_700_000_000
 
 
